@@ -792,3 +792,71 @@ func init() {
 			}
 		}})
 }
+
+func init() {
+	register(&Obligation{ID: "C19.i", Props: []string{"C19", "C10"}, Template: "order-domain",
+		Desc: "PartitionedPriorityQueue orders its partitions by their smallest element and puts empty partitions last: the heap comparator is 0 for two empty partitions, positive when only the first is empty, negative when only the second is, and the element comparator otherwise (an empty partition at the top would make Peek report 'no timers' while other key groups still have some)",
+		Run: func(r *Run) {
+			f := r.P.Func("util/ds", "NewPartitionedPriorityQueue")
+			info := f.Pkg.TypesInfo
+			var lit *ast.FuncLit
+			ast.Inspect(f.Decl.Body, func(nd ast.Node) bool {
+				if as, ok := nd.(*ast.AssignStmt); ok && len(as.Lhs) == 1 && len(as.Rhs) == 1 {
+					if l, ok := ast.Unparen(as.Rhs[0]).(*ast.FuncLit); ok && lit == nil && l.Type.Results != nil && len(l.Type.Params.List) >= 1 {
+						// the comparator literal passed to NewHeap: two partitions in, int out
+						n := 0
+						for _, p := range l.Type.Params.List {
+							n += len(p.Names)
+						}
+						if n == 2 {
+							lit = l
+						}
+					}
+				}
+				return true
+			})
+			if lit == nil {
+				r.Error("undecided: NewPartitionedPriorityQueue: heap comparator literal not found")
+				return
+			}
+			// operands: the two comma-ok flags of Peek and the element comparison
+			var oks []string
+			var cmpText string
+			ast.Inspect(lit.Body, func(nd ast.Node) bool {
+				switch x := nd.(type) {
+				case *ast.AssignStmt:
+					if len(x.Lhs) == 2 && len(x.Rhs) == 1 {
+						if c, ok := ast.Unparen(x.Rhs[0]).(*ast.CallExpr); ok {
+							if sel, ok := ast.Unparen(c.Fun).(*ast.SelectorExpr); ok && sel.Sel.Name == "Peek" {
+								oks = append(oks, types.ExprString(x.Lhs[1]))
+							}
+						}
+					}
+				case *ast.ReturnStmt:
+					if len(x.Results) == 1 {
+						if c, ok := ast.Unparen(x.Results[0]).(*ast.CallExpr); ok && len(c.Args) == 2 {
+							cmpText = types.ExprString(c)
+						}
+					}
+				}
+				return true
+			})
+			if len(oks) != 2 || cmpText == "" {
+				r.Error("undecided: NewPartitionedPriorityQueue: comparator does not have the (Peek, Peek, compare) shape (flags %v, compare %q)", oks, cmpText)
+				return
+			}
+			m := orderdom.New(info, map[string]string{oks[0]: "aOk", oks[1]: "bOk", cmpText: "cmp"})
+			res := m.CheckFunc(lit.Body, nil, func(e odEnv) orderdom.Value {
+				switch {
+				case !e.Bool["aOk"] && !e.Bool["bOk"]:
+					return orderdom.Int(0)
+				case !e.Bool["aOk"]:
+					return orderdom.Int(1)
+				case !e.Bool["bOk"]:
+					return orderdom.Int(-1)
+				}
+				return orderdom.Sym("cmp")
+			})
+			r.finishOD(f.Name()+"$heapCompare", lit.Pos(), res, "empty partitions last, otherwise the element comparator")
+		}})
+}
